@@ -357,6 +357,7 @@ Proof.
     destruct (inv3_order a I) as (E1 & E2 & E3 & O1 & O2 & O3 & Hl & Ht & AC & AW & AP).
     destruct (inv3_order a1 I1) as (F1 & F2 & F3 & P1 & P2 & P3 & Hl1 & Ht1 & AC1 & AW1 & AP1).
     destruct (inv3_order a' (rs_inv _ _ _ _ _ Rn)) as (G1 & G2 & G3 & Q1 & Q2 & Q3 & Hl' & Ht' & AC' & AW' & AP').
+    clear E1 E2 E3 F1 F2 F3 G1 G2 G3 AC AW AP AC1 AW1 AP1 AC' AW' AP'.
     pose proof (step_stable _ _ _ _ _ S O2) as ST1.
     destruct S as [sP sC sW sR sCo sE sT]. destruct Rn as [rI rP rC rW rSt rCo rE rT].
     assert (ST : forall p, p < tW (lpos a) -> nth p (tape a') 0%N = nth p (tape a) 0%N).
@@ -381,5 +382,277 @@ Proof.
         rewrite app_nth1 by lia. reflexivity.
       * rewrite edits_at_none by (intros q e Hin; pose proof (sE q e Hin); lia).
         unfold apply_edits; cbn [fold_left]. unfold src1.
-        bf (p <? tP (lpos a1)). bf (p <? tP (lpos a)). rewrite app_nth2 by lia. f_equal. lia.
+        bf (p <? tP (lpos a1)). bf (p <? tP (lpos a)). rewrite app_nth2 by lia. f_equal. clear - sP E. lia.
 Qed.
+
+(** the ring never changes size *)
+Lemma adv_slen k n a : slen (a_advance k n a) = slen a.
+Proof. unfold a_advance. destruct (tget k (sdet a)); destruct k; reflexivity. Qed.
+
+Lemma step_slen3 a o : fifo3_op o = true -> slen (fst (sstep a o)) = slen a.
+Proof.
+  intros F.
+  destruct o; try discriminate; try (destruct k; try discriminate); cbn [sstep];
+    match goal with |- context[if ?g then _ else _] => destruct g end; try reflexivity.
+  - apply (adv_slen W n a).
+  - unfold a_grant_one. destruct (1 <=? a_avail W a); reflexivity.
+  - unfold a_grant_one. destruct (1 <=? a_avail C a); reflexivity.
+  - unfold a_grant. destruct (n <=? a_avail W a); reflexivity.
+  - unfold a_grant. destruct (n <=? a_avail C a); reflexivity.
+  - destruct (a_avail W a); reflexivity.
+  - unfold a_push. destruct (1 <=? a_avail P a); try reflexivity.
+    apply (adv_slen P 1 (a_set_tape (upd (tP (lpos a)) v (tape a)) a)).
+  - unfold a_push_slice. destruct (length vs <=? a_avail P a); try reflexivity.
+    apply (adv_slen P (length vs) (a_set_tape (write (tape a) (tP (lpos a)) vs) a)).
+  - unfold a_pop. destruct (1 <=? a_avail C a); try reflexivity. apply (adv_slen C 1 a).
+  - unfold a_extract_item. destruct (1 <=? a_avail C a); try reflexivity. apply (adv_slen C 1 a).
+  - unfold a_extract_slice. destruct (n <=? a_avail C a); try reflexivity. apply (adv_slen C n a).
+Qed.
+
+Lemma run_slen3 h : forall a, forallb fifo3_op h = true -> slen (sfinal a h) = slen a.
+Proof.
+  induction h as [|o r IH]; intros a F; simpl; auto.
+  simpl in F. apply andb_prop in F as [Fo Fr]. rewrite (IH _ Fr). apply step_slen3. exact Fo.
+Qed.
+
+Lemma sub_map_seq (l : list N) n : forall i, i + n <= length l ->
+  sub l i n = map (fun p => nth p l 0%N) (seq i n).
+Proof.
+  induction n as [|n IH]; intros i H.
+  - reflexivity.
+  - change (S n) with (1 + n) at 1. rewrite sub_split, sub_one by lia. cbn [seq map app]. f_equal.
+    replace (i + 1) with (S i) by lia. apply IH. lia.
+Qed.
+
+(** ** The end-to-end theorem *)
+Theorem FIFO3 h a : Inv3 a -> forallb fifo3_op h = true -> snd (srun a h) = true ->
+  let a' := sfinal a h in
+  (* positions: one per accepted / consumed value *)
+  tP (ppos a') = tP (ppos a) + length (accepted a h) /\
+  tC (ppos a') = tC (ppos a) + length (consumed a h) /\
+  (* (i) the consumer obtained, in order, the final contents of the positions it went over *)
+  consumed a h = sub (tape a') (tC (ppos a)) (tC (ppos a') - tC (ppos a)) /\
+  (* (ii) final contents of every position below the producer: the initial / pushed value with
+     exactly the worker's accesses recorded for that position, in order *)
+  (forall p, p < tP (ppos a') -> nth p (tape a') 0%N = expected a h p) /\
+  consumed a h = map (expected a h) (seq (tC (ppos a)) (length (consumed a h))) /\
+  (* every access went to a position between the worker's initial and the producer's final position *)
+  (forall q e, In (q, e) (edits a h) -> tW (ppos a) <= q < tP (ppos a')) /\
+  (* (iii) stage order and capacity *)
+  tC (ppos a') <= tW (ppos a') /\ tW (ppos a') <= tP (ppos a') /\
+  tP (ppos a') - tC (ppos a') <= slen a - 1.
+Proof.
+  intros I F OK a'. pose proof (run3 h a I F OK) as Rn. fold a' in Rn.
+  pose proof (run_slen3 h a F) as SL. fold a' in SL.
+  destruct (inv3_order a I) as (E1 & E2 & E3 & O1 & O2 & O3 & Hl & Ht & AC & AW & AP).
+  destruct (inv3_order a' (rs_inv _ _ _ _ _ Rn)) as (G1 & G2 & G3 & Q1 & Q2 & Q3 & Hl' & Ht' & AC' & AW' & AP').
+  destruct Rn as [rI rP rC rW rSt rCo rE rT].
+  clear AC AW AP AC' AW' AP'.
+  rewrite <- E1, <- E2, <- E3, <- G1, <- G2, <- G3.
+  assert (X : forall p, p < tP (lpos a') -> nth p (tape a') 0%N = expected a h p) by exact rT.
+  repeat match goal with |- _ /\ _ => split end; auto; try lia.
+  - replace (tC (lpos a') - tC (lpos a)) with (length (consumed a h)) by lia. exact rCo.
+  - etransitivity; [exact rCo|]. rewrite sub_map_seq by lia. apply map_ext_in.
+    intros p Hp. apply in_seq in Hp. apply X. lia.
+Qed.
+
+(** ** Nothing is seen half-processed: the discipline at every step of the history *)
+Theorem FIFO3_discipline h1 o h2 a :
+  Inv3 a -> forallb fifo3_op (h1 ++ o :: h2) = true -> snd (srun a (h1 ++ o :: h2)) = true ->
+  let a1 := sfinal a h1 in          (* the state in which [o] is issued *)
+  let a' := sfinal a (h1 ++ o :: h2) in
+  (* an access of the worker goes to a position that the producer has published, the worker has not
+     released and the consumer has not reached *)
+  (forall q e, In (q, e) (edits1 a1 o) ->
+     tC (ppos a1) <= tW (ppos a1) /\ tW (ppos a1) <= q /\ q < tP (ppos a1)) /\
+  (* a read of the consumer returns the contents of the next positions, all released by the worker *)
+  consumed1 a1 o = sub (tape a1) (tC (ppos a1)) (length (consumed1 a1 o)) /\
+  tC (ppos a1) + length (consumed1 a1 o) <= tW (ppos a1) /\
+  (* an accepted push lands on the producer's position, beyond everything the worker may touch *)
+  (forall j, j < length (accepted1 a1 o) ->
+     nth (tP (ppos a1) + j) (tape (fst (sstep a1 o))) 0%N = nth j (accepted1 a1 o) 0%N) /\
+  (* what has been released never changes again, and the worker never goes back *)
+  (forall p, p < tW (ppos a1) -> nth p (tape a') 0%N = nth p (tape a1) 0%N) /\
+  tW (ppos a1) <= tW (ppos a').
+Proof.
+  intros I F OK a1 a'.
+  rewrite forallb_app in F. apply andb_prop in F as [F1 F2].
+  rewrite srun_ok_app in OK. apply andb_prop in OK as [OK1 OK2]. fold a1 in OK2.
+  pose proof (run3 h1 a I F1 OK1) as R1. fold a1 in R1.
+  pose proof (rs_inv _ _ _ _ _ R1) as I1.
+  pose proof (run3 (o :: h2) a1 I1 F2 OK2) as R2.
+  assert (Ea : sfinal a1 (o :: h2) = a') by (unfold a', a1; rewrite sfinal_app; reflexivity).
+  rewrite Ea in R2.
+  simpl in F2. apply andb_prop in F2 as [Fo _].
+  rewrite srun_ok_cons in OK2. apply andb_prop in OK2 as [Oo _].
+  pose proof (step3_spec a1 o I1 Fo Oo) as S.
+  pose proof (inv3_step a1 o I1 Fo Oo) as I2.
+  destruct (inv3_order a1 I1) as (E1 & E2 & E3 & O1 & O2 & O3 & Hl & Ht & AC & AW & AP).
+  destruct (inv3_order a' (rs_inv _ _ _ _ _ R2)) as (G1 & G2 & G3 & _).
+  clear AC AW AP.
+  rewrite <- E1, <- E2, <- E3, <- G2.
+  repeat match goal with |- _ /\ _ => split end.
+  - intros q e Hin. pose proof (ss_eds _ _ _ _ _ S q e Hin). lia.
+  - exact (ss_cons _ _ _ _ _ S).
+  - pose proof (ss_C _ _ _ _ _ S). pose proof (ss_rel _ _ _ _ _ S). lia.
+  - intros j Hj. rewrite (ss_tape _ _ _ _ _ S) by (rewrite (ss_P _ _ _ _ _ S); lia).
+    rewrite edits_at_none by (intros q e Hin; pose proof (ss_eds _ _ _ _ _ S q e Hin); lia).
+    unfold apply_edits; cbn [fold_left]. unfold src1. bf (tP (lpos a1) + j <? tP (lpos a1)).
+    f_equal. lia.
+  - exact (rs_stable _ _ _ _ _ R2).
+  - exact (rs_W _ _ _ _ _ R2).
+Qed.
+
+(** ** The same on the outputs of the executable Model *)
+
+(** what the results of a run say the consumer obtained *)
+Definition consumed_out (o : op) (x : out * list lev) : list N :=
+  match o with
+  | Pop => match fst x with OVal v => [v] | _ => [] end
+  | CopyItem => match fst x with ODst l => l | _ => [] end
+  | CopySlice _ => match fst x with ODst l => l | _ => [] end
+  | _ => []
+  end.
+
+Fixpoint consumed_outs (h : list op) (xs : list (out * list lev)) : list N :=
+  match h, xs with
+  | o :: r, x :: xr => consumed_out o x ++ consumed_outs r xr
+  | _, _ => []
+  end.
+
+Lemma consumed_outs_spec h : forall a, consumed a h = consumed_outs h (snd (fst (srun a h))).
+Proof.
+  induction h as [|o r IH]; intros a.
+  - reflexivity.
+  - cbn [consumed srun]. unfold consumed1. specialize (IH (fst (sstep a o))).
+    destruct (sstep a o) as [a1 x]. cbn [fst snd] in *.
+    destruct (srun a1 r) as [[a2 xs] okr]. cbn [fst snd consumed_outs] in *.
+    rewrite IH. destruct o; reflexivity.
+Qed.
+
+(** any state related to a Model state, three stages, plain items, nothing detached; the history
+    respects the contract: the Model returns the Spec's results, and the theorem holds for them *)
+Theorem FIFO3_rel m a h :
+  Rel m a -> shasW a = true -> sowned a = false ->
+  tP (sdet a) = false -> tW (sdet a) = false -> tC (sdet a) = false ->
+  forallb fifo3_op h = true -> snd (srun a h) = true ->
+  let a' := fst (fst (srun a h)) in
+  snd (run m h) = snd (fst (srun a h)) /\ Rel (fst (run m h)) a' /\
+  consumed_outs h (snd (run m h)) = consumed a h /\
+  tP (ppos a') = tP (ppos a) + length (accepted a h) /\
+  tC (ppos a') = tC (ppos a) + length (consumed a h) /\
+  consumed a h = sub (tape a') (tC (ppos a)) (tC (ppos a') - tC (ppos a)) /\
+  (forall p, p < tP (ppos a') -> nth p (tape a') 0%N = expected a h p) /\
+  consumed a h = map (expected a h) (seq (tC (ppos a)) (length (consumed a h))) /\
+  (forall q e, In (q, e) (edits a h) -> tW (ppos a) <= q < tP (ppos a')) /\
+  tC (ppos a') <= tW (ppos a') /\ tW (ppos a') <= tP (ppos a') /\
+  tP (ppos a') - tC (ppos a') <= slen a - 1.
+Proof.
+  intros R HW HO DP DW DC F OK a'.
+  assert (I : Inv3 a) by (constructor; eauto).
+  pose proof (FIFO3 h a I F OK) as T. cbv zeta in T. rewrite sfinal_srun in T. fold a' in T.
+  pose proof (run_refines h m a R) as RR. pose proof (consumed_outs_spec h a) as CO.
+  unfold a'. destruct (srun a h) as [[a2 ys] ok]. cbn [fst snd] in *.
+  destruct (run m h) as [m' xs]. cbn [fst snd] in *. destruct (RR OK) as [-> R'].
+  repeat match goal with |- _ /\ _ => split end; auto; apply T.
+Qed.
+
+(** ** From the initial state: position [k] holds the [k]-th accepted value *)
+Lemma inv3_init c a : a_init c = Some a -> c_worker c = true -> c_owned c = false ->
+  Inv3 a /\ ppos a = mkTri 0 0 0 /\ lpos a = mkTri 0 0 0 /\ slen a = length (c_init c).
+Proof.
+  intros Ha HW HO. pose proof (init_refines c) as R. rewrite Ha in R.
+  destruct (init c) as [m|]; [|contradiction].
+  unfold a_init in Ha. destruct (length (c_init c)) eqn:E; try discriminate.
+  inversion Ha; subst; clear Ha.
+  split; [|auto].
+  constructor; simpl; auto. exists m. exact R.
+Qed.
+
+Theorem FIFO3_init c a h : a_init c = Some a -> c_worker c = true -> c_owned c = false ->
+  forallb fifo3_op h = true -> snd (srun a h) = true ->
+  let a' := fst (fst (srun a h)) in
+  (* the [k]-th value consumed is the [k]-th value accepted, with exactly the worker's accesses to
+     position [k], in order *)
+  consumed a h =
+    map (fun k => apply_edits (edits_at k (edits a h)) (nth k (accepted a h) 0%N))
+        (seq 0 (length (consumed a h))) /\
+  length (consumed a h) <= length (accepted a h) /\
+  length (accepted a h) - length (consumed a h) <= length (c_init c) - 1 /\
+  tP (ppos a') = length (accepted a h) /\ tC (ppos a') = length (consumed a h) /\
+  tC (ppos a') <= tW (ppos a') /\ tW (ppos a') <= tP (ppos a') /\
+  (forall q e, In (q, e) (edits a h) -> q < length (accepted a h)).
+Proof.
+  intros Ha HW HO F OK a'. destruct (inv3_init c a Ha HW HO) as (I & Ep & El & Es).
+  pose proof (FIFO3 h a I F OK) as T. cbv zeta in T. rewrite sfinal_srun in T. fold a' in T.
+  destruct T as (T1 & T2 & T3 & T4 & T5 & T6 & T7 & T8 & T9).
+  rewrite Ep in *. cbn [tP tW tC] in *. rewrite Es in *.
+  repeat match goal with |- _ /\ _ => split end; try lia.
+  - etransitivity; [exact T5|]. apply map_ext. intros k. unfold expected, src, src1.
+    rewrite El. cbn [tP]. bf (k <? 0). rewrite Nat.sub_0_r. reflexivity.
+  - intros q e Hin. pose proof (T6 q e Hin). lia.
+Qed.
+
+(** a worker that only looks: the consumer gets a prefix of what was accepted, as in the two-stage case *)
+Corollary FIFO3_init_no_edits c a h : a_init c = Some a -> c_worker c = true -> c_owned c = false ->
+  forallb fifo3_op h = true -> snd (srun a h) = true -> edits a h = [] ->
+  consumed a h = firstn (length (consumed a h)) (accepted a h).
+Proof.
+  intros Ha HW HO F OK Hed. destruct (FIFO3_init c a h Ha HW HO F OK) as (T1 & T2 & _).
+  rewrite Hed in T1. etransitivity; [exact T1|]. symmetry.
+  change (firstn (length (consumed a h)) (accepted a h))
+    with (sub (accepted a h) 0 (length (consumed a h))).
+  rewrite sub_map_seq by lia. apply map_ext. intros k. reflexivity.
+Qed.
+
+(** ** Examples: the hypotheses are satisfiable, and the contract is needed *)
+Definition ex_config : config := mkConfig [0; 0; 0; 0]%N true false false.   (* len 4, worker, plain *)
+
+(** three pushes, the worker edits two of the items and releases two, the consumer pops two *)
+Definition ex_h1 : list op :=
+  [Push 10; Push 20; Push 30; Edit W 0 5; Poke W 1 7; Advance W 2; Pop; Pop]%N.
+
+(** ... then two more pushes (position 4 wraps to slot 0), more edits (position 4 twice) released in
+    two steps, a slice read over the wrap, one more push, and a pop that is refused because the
+    worker has not released position 5 *)
+Definition ex_h2 : list op :=
+  ex_h1 ++ [PushSlice [40; 50]; Edit W 0 1; Advance W 1; GetExact W 2; Edit W 0 2; Edit W 1 3;
+            Edit W 1 100; Advance W 2; CopySlice 3; Push 60; Pop]%N.
+
+Example FIFO3_example1 :
+  exists a, a_init ex_config = Some a /\
+    forallb fifo3_op ex_h1 = true /\ snd (srun a ex_h1) = true /\
+    accepted a ex_h1 = [10; 20; 30]%N /\
+    edits a ex_h1 = [(0, EAdd 5%N); (1, ESet 7%N)] /\
+    consumed a ex_h1 = [15; 7]%N /\
+    map (expected a ex_h1) (seq 0 2) = [15; 7]%N /\
+    ppos (sfinal a ex_h1) = mkTri 3 2 2.
+Proof. eexists. split; [reflexivity|]. vm_compute. repeat split. Qed.
+
+Example FIFO3_example2 :
+  exists a m, a_init ex_config = Some a /\ init ex_config = Some m /\
+    forallb fifo3_op ex_h2 = true /\ snd (srun a ex_h2) = true /\
+    accepted a ex_h2 = [10; 20; 30; 40; 50; 60]%N /\
+    edits a ex_h2 = [(0, EAdd 5%N); (1, ESet 7%N); (2, EAdd 1%N); (3, EAdd 2%N); (4, EAdd 3%N); (4, EAdd 100%N)] /\
+    consumed a ex_h2 = [15; 7; 31; 42; 153]%N /\
+    consumed_outs ex_h2 (snd (run m ex_h2)) = [15; 7; 31; 42; 153]%N /\
+    map (expected a ex_h2) (seq 0 5) = [15; 7; 31; 42; 153]%N /\
+    ppos (sfinal a ex_h2) = mkTri 6 5 5 /\
+    a_ring (sfinal a ex_h2) = [153; 60; 31; 42]%N /\            (* positions 4 and 5 sit in slots 0 and 1 *)
+    nth 11 (map fst (snd (fst (srun a ex_h2)))) OBad = OSlices 3 [40%N] [50%N].   (* the wrapped window *)
+Proof. eexists. eexists. split; [reflexivity|]. split; [reflexivity|]. vm_compute. repeat split. Qed.
+
+(** a worker that writes outside its granted window breaks the contract ([srun] says so), and then
+    the statement fails: the access is overwritten by the push *)
+Example FIFO3_contract_needed :
+  exists a, a_init ex_config = Some a /\
+    let h := [Edit W 0 5; Push 10; Advance W 1; Pop]%N in
+    forallb fifo3_op h = true /\ snd (srun a h) = false /\
+    consumed a h = [10%N] /\ map (expected a h) (seq 0 1) = [15%N].
+Proof. eexists. split; [reflexivity|]. vm_compute. repeat split. Qed.
+
+Print Assumptions FIFO3.
+Print Assumptions FIFO3_discipline.
+Print Assumptions FIFO3_rel.
+Print Assumptions FIFO3_init.
+Print Assumptions FIFO3_init_no_edits.
